@@ -978,6 +978,9 @@ class Engine:
 
     def power(self, path, a, b):
         if not is_sym(b):
+            if isinstance(b, float) and b.is_integer() and abs(b) <= 8 and not isinstance(a, (int, float)):
+                b = int(b)          # x ** 2.0 == x ** 2 over the reals (the result is used as a real anyway)
+                a = to_real(a)
             if isinstance(b, int) and 0 <= b <= 8:
                 r = 1
                 for _ in range(b):
